@@ -841,6 +841,11 @@ var cfTables = []cfTable{
 			{"all options", "throttle {\n latency 100ms\n read_burst_size 4096\n read_bytes_per_second 1024.5\n total_read_burst_size 65536\n total_read_bytes_per_second 1e6\n}", map[string]string{"Latency": "100000000", "ReadBurstSize": "4096", "ReadBytesPerSecond": "1024.5", "TotalReadBurstSize": "65536", "TotalReadBytesPerSecond": "1e+06"}},
 			{"per-connection only, reversed order", "throttle {\n read_bytes_per_second 10\n read_burst_size 20\n}", map[string]string{"ReadBurstSize": "20", "ReadBytesPerSecond": "10", "TotalReadBurstSize": "0", "TotalReadBytesPerSecond": "0"}},
 			{"total only", "throttle {\n total_read_burst_size 7\n total_read_bytes_per_second 3\n}", map[string]string{"ReadBurstSize": "0", "ReadBytesPerSecond": "0", "TotalReadBurstSize": "7", "TotalReadBytesPerSecond": "3"}},
+			{"total burst before the per-connection burst", "throttle {\n total_read_burst_size 7\n read_burst_size 3\n}", map[string]string{"ReadBurstSize": "3", "TotalReadBurstSize": "7"}},
+			{"total rate before the per-connection rate", "throttle {\n total_read_bytes_per_second 7\n read_bytes_per_second 3\n}", map[string]string{"ReadBytesPerSecond": "3", "TotalReadBytesPerSecond": "7"}},
+			{"total_read_burst_size twice", "throttle {\n total_read_burst_size 1\n total_read_burst_size 2\n}", nil},
+			{"read_bytes_per_second twice", "throttle {\n read_bytes_per_second 1\n read_bytes_per_second 2\n}", nil},
+			{"total_read_bytes_per_second twice", "throttle {\n total_read_bytes_per_second 1\n total_read_bytes_per_second 2\n}", nil},
 			{"latency twice", "throttle {\n latency 1s\n latency 2s\n}", nil},
 			{"read_burst_size twice", "throttle {\n read_burst_size 1\n read_burst_size 2\n}", nil},
 			{"burst not an integer", "throttle {\n read_burst_size 1.5\n}", nil},
@@ -962,6 +967,8 @@ var cfTables = []cfTable{
 			{"tls options", "upstream a:1 {\n tls_server_name example.com\n tls_insecure_skip_verify\n tls_renegotiation once\n tls_timeout 5s\n}", map[string]string{"TLS": `{HandshakeTimeout:5000000000 InsecureSkipVerify:true Renegotiation:"once" ServerName:"example.com"}`}},
 			{"tls_client_auth automate", "upstream a:1 {\n tls_client_auth client.example.com\n}", map[string]string{"TLS": `{ClientCertificateAutomate:"client.example.com"}`}},
 			{"tls_client_auth files", "upstream a:1 {\n tls_client_auth /c.pem /k.pem\n}", map[string]string{"TLS": `{ClientCertificateFile:"/c.pem" ClientCertificateKeyFile:"/k.pem"}`}},
+			{"tls_curves before tls_except_ports, both repeated", "upstream a:1 {\n tls_curves x25519 secp256r1\n tls_except_ports 80\n tls_curves secp384r1\n tls_except_ports 8080 8081\n}", map[string]string{"TLS": `{Curves:["x25519" "secp256r1" "secp384r1"] ExceptPorts:["80" "8080" "8081"]}`}},
+			{"deprecated CA options", "upstream a:1 {\n tls_trusted_ca_certs /a.pem /b.pem\n tls_trusted_ca_pool cHVi\n}", map[string]string{"TLS": `{RootCAPEMFiles:["/a.pem" "/b.pem"] RootCAPool:["cHVi"]}`}},
 			{"no address at all", "upstream {\n max_connections 5\n}", nil},
 			{"bare", "upstream", nil},
 			{"dial without value", "upstream {\n dial\n}", nil},
@@ -985,6 +992,8 @@ var cfTables = []cfTable{
 			{"both kinds of health checks", "proxy a:1 {\n max_fails 1\n health_port 81\n}", map[string]string{"HealthChecks": `{Active:{Port:81} Passive:{MaxFails:1}}`}},
 			{"load balancing durations and proxy protocol", "proxy a:1 {\n lb_try_duration 3s\n lb_try_interval 250ms\n proxy_protocol v2\n}", map[string]string{"LoadBalancing": `{TryDuration:3000000000 TryInterval:250000000}`, "ProxyProtocol": `"v2"`}},
 			{"upstream options after shortcut upstreams", "proxy a:1 {\n upstream b:2\n upstream {\n  dial c:3 d:4\n  max_connections 7\n }\n}", map[string]string{"Upstreams": `[{Dial:["a:1"]} {Dial:["b:2"]} {Dial:["c:3" "d:4"] MaxConnections:7}]`}},
+			{"active option, then unhealthy_connection_count as the first passive one", "proxy a:1 {\n health_port 81\n health_interval 5s\n unhealthy_connection_count 5\n}", map[string]string{"HealthChecks": `{Active:{Interval:5000000000 Port:81} Passive:{UnhealthyConnectionCount:5}}`}},
+			{"passive option, then active ones", "proxy a:1 {\n fail_duration 1s\n health_timeout 2s\n}", map[string]string{"HealthChecks": `{Active:{Timeout:2000000000} Passive:{FailDuration:1000000000}}`}},
 			{"load balancing policy without arguments", "proxy a:1 b:2 {\n lb_policy round_robin\n}", map[string]string{"LoadBalancing": `{SelectionPolicyRaw:RoundRobinSelection{}+policy=round_robin}`}},
 			{"load balancing policy with an argument", "proxy a:1 b:2 {\n lb_policy random_choose 3\n lb_try_duration 1s\n}", map[string]string{"LoadBalancing": `{SelectionPolicyRaw:RandomChoiceSelection{Choose:3}+policy=random_choose TryDuration:1000000000}`}},
 			{"unknown load balancing policy", "proxy a:1 {\n lb_policy fastest\n}", nil},
@@ -1009,6 +1018,7 @@ var cfTables = []cfTable{
 			{"matcher block, two sets on a route, two handlers", ":443 {\n @a {\n  ssh\n  remote_ip 10.0.0.0/8\n }\n @b regexp ^x 4\n route @a @b {\n  throttle {\n   latency 1s\n  }\n  echo\n }\n}", map[string]string{"Routes": `[{HandlersRaw:[Handler{Latency:1000000000}+handler=throttle Handler{}+handler=echo] MatcherSetsRaw:[map["remote_ip":MatchRemoteIP{Ranges:["10.0.0.0/8"]} "ssh":MatchSSH{}] map["regexp":MatchRegexp{Count:4 Pattern:"^x"}]]}]`}},
 			{"two routes keep their order", ":443 {\n @a ssh\n @b xmpp\n route @b {\n  echo\n }\n route @a {\n  proxy a:1\n }\n route {\n  proxy b:2\n }\n}", map[string]string{"Routes": `[{HandlersRaw:[Handler{}+handler=echo] MatcherSetsRaw:[map["xmpp":MatchXMPP{}]]} {HandlersRaw:[Handler{Upstreams:[{Dial:["a:1"]}]}+handler=proxy] MatcherSetsRaw:[map["ssh":MatchSSH{}]]} {HandlersRaw:[Handler{Upstreams:[{Dial:["b:2"]}]}+handler=proxy]}]`}},
 			{"matching timeout", ":443 {\n matching_timeout 5s\n route {\n  echo\n }\n}", map[string]string{"MatchingTimeout": "5000000000"}},
+			{"matching timeout in days", ":443 {\n matching_timeout 1d\n}", map[string]string{"MatchingTimeout": "86400000000000"}},
 			{"undefined matcher set", ":443 {\n route @nope {\n  echo\n }\n}", nil},
 			{"duplicate matcher set", ":443 {\n @a ssh\n @a xmpp\n}", nil},
 			{"duplicate matching timeout", ":443 {\n matching_timeout 5s\n matching_timeout 6s\n}", nil},
@@ -1056,6 +1066,18 @@ var cfTables = []cfTable{
 			{"block of two matchers is one set", "not {\n ssh\n remote_ip 10.0.0.0/8\n}", map[string]string{"MatcherSetsRaw": `[map["remote_ip":MatchRemoteIP{Ranges:["10.0.0.0/8"]} "ssh":MatchSSH{}]]`}},
 			{"duplicate matcher", "not {\n ssh\n ssh\n}", nil},
 			{"unknown matcher", "not telnet", nil},
+		},
+	},
+	{
+		fn: "modules/l4tls.(*Handler).UnmarshalCaddyfile", source: "tls { connection_policy { alpn <values...>; ciphers <...>; curves <...>; default_sni <name>; fallback_sni <name>; protocols <min> [<max>]; drop; ... } ... } | tls",
+		cases: []cfCase{
+			{"bare", "tls", map[string]string{"ConnectionPolicies": "[]"}},
+			{"one policy", "tls {\n connection_policy {\n  alpn h2 http/1.1\n  default_sni example.com\n  protocols tls1.2 tls1.3\n }\n}", map[string]string{"ConnectionPolicies": `[{ALPN:["h2" "http/1.1"] DefaultSNI:"example.com" ProtocolMax:"tls1.3" ProtocolMin:"tls1.2"}]`}},
+			{"protocols with the minimum only", "tls {\n connection_policy {\n  protocols tls1.3\n }\n}", map[string]string{"ConnectionPolicies": `[{ProtocolMin:"tls1.3"}]`}},
+			{"two policies stay two objects, in order", "tls {\n connection_policy {\n  default_sni a.example\n }\n connection_policy {\n  default_sni b.example\n  curves x25519\n }\n}", map[string]string{"ConnectionPolicies": `[{DefaultSNI:"a.example"} {Curves:["x25519"] DefaultSNI:"b.example"}]`}},
+			{"same-line argument", "tls on", nil},
+			{"unknown option", "tls {\n policy {\n }\n}", nil},
+			{"unknown policy option", "tls {\n connection_policy {\n  sni x\n }\n}", nil},
 		},
 	},
 	{
